@@ -1,9 +1,12 @@
 """registry.py — property id -> check function(prop, tier, seed, replay) -> exit code"""
-import props_map, props_ext, props_conv, props_dbg
+import props_map, props_ext, props_conv, props_dbg, props_sub, props_c14
 
 CHECKS = {}
-for p in ("C01", "C02", "C05", "C07", "C13", "C14"):
+for p in ("C01", "C02", "C05", "C07", "C13"):
     CHECKS[p] = lambda prop, tier, seed, replay: props_map.run_property(prop, tier, seed, replay=replay)
 CHECKS["C06"] = lambda prop, tier, seed, replay: props_ext.run_property(prop, tier, seed, replay=replay)
 CHECKS["C08"] = lambda prop, tier, seed, replay: props_conv.run_property(prop, tier, seed, replay=replay)
 CHECKS["C20"] = lambda prop, tier, seed, replay: props_dbg.run_property(prop, tier, seed, replay=replay)
+for p in ("C04", "C10", "C09"):
+    CHECKS[p] = lambda prop, tier, seed, replay: props_sub.run_property(prop, tier, seed, replay=replay)
+CHECKS["C14"] = lambda prop, tier, seed, replay: props_c14.run_property(prop, tier, seed, replay=replay)
